@@ -287,7 +287,14 @@ func ExecDispose(c DCase) *DRun {
 	var parkedOnce atomic.Bool
 	pk := &parker{}
 	defer pk.letGo()
+	var ddMu sync.Mutex
+	ddHits := map[string]int{}
 	registry.Store(m, func(id string) {
+		if strings.HasPrefix(id, "dd:") {
+			ddMu.Lock()
+			ddHits[id]++
+			ddMu.Unlock()
+		}
 		pk.hit(id)
 		if want := parkAt.Load().(string); want != "" && id == want && parkedOnce.CompareAndSwap(false, true) {
 			parked <- struct{}{}
@@ -795,6 +802,48 @@ func ExecDispose(c DCase) *DRun {
 	}
 	disposedOK := isClosed(m.WhenDisposed())
 	if disposedOK {
+		// the two CAS gates of doDispose: whatever the number of concurrent disposers, one passes
+		ddMu.Lock()
+		won, body := ddHits["dd:disposing"], ddHits["dd:disposed"]
+		ddMu.Unlock()
+		if won != 1 || body != 1 {
+			fail("%d goroutines passed the CAS on the disposing flag and %d the CAS on the disposed flag (want one each; trigger %s)", won, body, c.Trigger)
+		}
+		// several disposers at once: the final state does not depend on the interleaving; the model's
+		// after any complete schedule
+		nG, nF := 0, 0
+		switch c.Trigger {
+		case "twice-conc":
+			nG = 4
+		case "twice":
+			nG = 2
+		case "dispose+force":
+			nG, nF = 1, 1
+		}
+		if nG+nF > 0 && len(run.Lines) == 0 {
+			run.Lines = append(run.Lines, "dp init 1")
+			run.Obs = append(run.Obs, "ok")
+			for i := 0; i < nG; i++ {
+				run.Lines = append(run.Lines, "dp spawn dispose")
+				run.Obs = append(run.Obs, fmt.Sprintf("thread=%d", i))
+			}
+			for i := 0; i < nF; i++ {
+				run.Lines = append(run.Lines, "dp spawn force")
+				run.Obs = append(run.Obs, fmt.Sprintf("thread=%d", nG+i))
+			}
+			for i := 0; i < nG+nF; i++ {
+				run.Lines = append(run.Lines, fmt.Sprintf("dp run %d done", i))
+				run.Obs = append(run.Obs, "*")
+			}
+			b2 := func(b bool) int {
+				if b {
+					return 1
+				}
+				return 0
+			}
+			run.Obs[len(run.Obs)-1] = fmt.Sprintf("pc=done lock=%d disposing=%d disposed=%d q=* started=* running=* body=%d",
+				b2(am.VerifQueueProcessing(m)), b2(am.VerifDisposing(m)), b2(m.IsDisposed()), dh1.Load())
+		}
 		// let the delayed channel closing (100ms) and the handler goroutine settle
 		time.Sleep(260 * time.Millisecond)
 		for _, s := range subs {
@@ -964,6 +1013,9 @@ var Scripts []ProtoScript
 
 // MatchObs compares an observation with the model's line; `*` in the observation matches anything.
 func MatchObs(obs, model string) bool {
+	if obs == "*" {
+		return true
+	}
 	a, b := strings.Fields(obs), strings.Fields(model)
 	if len(a) != len(b) {
 		return false
